@@ -8,6 +8,8 @@ import SoxrModel.Properties.C06
 #print axioms Soxr.C06.pull_advance_flat
 #print axioms Soxr.C06.mono_reads_channel
 #print axioms Soxr.C06.multi_equals_mono_partial
+#print axioms Soxr.C06.multi_equals_mono_view
+#print axioms Soxr.C06.channel_data_isolation
 #print axioms Soxr.C06.clips_eq_sum_shares
 #print axioms Soxr.C06.clips_sum_of_mono_runs
 #print axioms Soxr.C06.split_path_eq_generic
